@@ -105,6 +105,13 @@ class VECTOR_BLF_EXPORT UncompressedFile final : public AbstractFile {
      */
     virtual void setDefaultLogContainerSize(uint32_t defaultLogContainerSize);
 
+#ifdef VECTOR_BLF_VERIF
+    /**
+     * verification hook: number of log containers and payload bytes currently held (read under the stream's mutex)
+     */
+    void verifHeld(size_t & containers, size_t & bytes) const;
+#endif
+
     /** tellg was changed (after read or seekg) */
     std::condition_variable tellgChanged;
 
